@@ -2,12 +2,16 @@ import TTV.Sexp
 import TTV.Model.Stream
 import TTV.Spec.C10
 import TTV.Drv.StreamCodec
-/-! Driver glue for C10: input = `(run…)`, run = `(event…)`; trace = `(runTrace…)`,
-runTrace = `(dict summary ext)`, summary = `(testsRun errors failures skipped xfails uxsuccesses wasSuccessful)`. -/
+/-! Driver glue for C10: input = `(run…)`, run = `((event…) (fault…))`; trace = `(runTrace…)`,
+runTrace = `(dict dictRaised dictStopRaises summary ext extRaised extStopRaises realStarted)`, summary = `(testsRun errors failures skipped xfails uxsuccesses wasSuccessful)`. -/
 namespace TTV.Drv.C10
 open TTV TTV.Sexp TTV.Stream TTV.Drv.StreamCodec
 
-def input? (s : Sexp) : Option Input := do some { runs := ← list? (list? event?) s }
+def run? : Sexp → Option Run
+  | .list [es, fs] => do some { events := ← list? event? es, faults := ← list? nat? fs }
+  | _ => none
+
+def input? (s : Sexp) : Option Input := do some { runs := ← list? run? s }
 
 def summary? : Sexp → Option Summary
   | .list [a, b, c, d, e, f, g] => do
@@ -19,9 +23,14 @@ def ofSummary (s : Summary) : Sexp :=
          ofList ofNat s.expectedFailures, ofList ofNat s.unexpectedSuccesses, ofBool s.wasSuccessful]
 
 def runTrace? : Sexp → Option RunTrace
-  | .list [a, b, c] => do some { dict := ← list? report? a, summary := ← summary? b, ext := ← list? extEv? c }
+  | .list [a, a1, a2, b, c, c1, c2, d] => do
+      some { dict := ← list? report? a, dictRaised := ← list? nat? a1, dictStopRaises := ← nat? a2, summary := ← summary? b,
+             ext := ← list? extEv? c, extRaised := ← list? nat? c1, extStopRaises := ← nat? c2,
+             realStarted := ← list? nat? d }
   | _ => none
-def ofRunTrace (t : RunTrace) : Sexp := .list [ofList ofReport t.dict, ofSummary t.summary, ofList ofExtEv t.ext]
+def ofRunTrace (t : RunTrace) : Sexp :=
+  .list [ofList ofReport t.dict, ofList ofNat t.dictRaised, ofNat t.dictStopRaises, ofSummary t.summary,
+         ofList ofExtEv t.ext, ofList ofNat t.extRaised, ofNat t.extStopRaises, ofList ofNat t.realStarted]
 
 def drv : PropDrv Input Trace :=
   { decI := input?, decT := list? runTrace?, encT := ofList ofRunTrace, model := model, clauses := Spec.C10.clauses }
